@@ -95,6 +95,68 @@ def router_equivalence(tier):
             "assumptions": ["folded-router equivalence is checked only on this bounded family of recipes"]}
 
 
+def recipe_assembly():
+    """Bounded probe (labelled bounded) of the recipe ASSEMBLY, which is class machinery (metaclass, __init_subclass__, MRO, _clone) and
+    not under contract: "first one, in the order instance recipe then class recipes", "extend() prepends, replace() changes only scalar
+    options".  Every provider is `loader(int, f_k, Chain.FIRST)` with f_k(x) = 10 * x + k: loading 0 spells the order in which the
+    providers were consulted as a decimal number (each exactly once), ending in the builtin int loader."""
+    from adaptix import Chain, DebugTrail, Retort, loader
+
+    def tag(k):
+        return loader(int, (lambda x, k=k: 10 * x + k), Chain.FIRST)
+    viol, n = [], 0
+    counts = (0, 1, 2)
+    for n_ext, n_inst, n_child, n_parent, n_mixin in itertools.product(counts, counts, counts, counts, (0, 1)):
+        digits = iter(range(1, 10))
+        ext = [next(digits) for _ in range(n_ext)]
+        inst = [next(digits) for _ in range(n_inst)]
+        child = [next(digits) for _ in range(n_child)]
+        mixin = [next(digits) for _ in range(n_mixin)]
+        parent = [next(digits) for _ in range(n_parent)]
+
+        class Parent(Retort):
+            recipe = [tag(k) for k in parent]
+
+        class Mixin(Retort):
+            recipe = [tag(k) for k in mixin]
+
+        class Child(Parent, Mixin):      # MRO: Child, Parent, Mixin, Retort
+            recipe = [tag(k) for k in child]
+        want_digits = ext + inst + child + parent + mixin
+        want = int("".join(map(str, want_digits)) or "0")
+        base = Child(recipe=[tag(k) for k in inst])
+        variants = {
+            "extend": lambda: base.extend(recipe=[tag(k) for k in ext]),
+            "extend+replace(debug_trail)": lambda: base.extend(recipe=[tag(k) for k in ext]).replace(debug_trail=DebugTrail.DISABLE),
+            "replace(strict_coercion)+extend": lambda: base.replace(strict_coercion=False).extend(recipe=[tag(k) for k in ext]),
+            "extend twice": lambda: base.extend(recipe=[tag(k) for k in ext[1:]]).extend(recipe=[tag(k) for k in ext[:1]]),
+        }
+        for vname, mk in variants.items():
+            n += 1
+            try:
+                got = mk().load(0, int)
+            except Exception as e:  # noqa: BLE001
+                got = f"{type(e).__name__}: {e}"[:120]
+            # the original must be left as it was (extend / replace return new retorts)
+            try:
+                orig = base.load(0, int)
+            except Exception as e:  # noqa: BLE001
+                orig = f"{type(e).__name__}: {e}"[:120]
+            want_orig = int("".join(map(str, inst + child + parent + mixin)) or "0")
+            if got != want or orig != want_orig:
+                if len(viol) < 40:
+                    viol.append({"unit": "recipe assembly", "clause": "instance-then-class-recipes-extend-prepends",
+                                 "witness": f"{vname}; ext={ext} inst={inst} child={child} parent={parent} mixin={mixin}",
+                                 "w": {"input": f"class Child(Parent, Mixin) with class recipes {child} / {parent} / {mixin}, instance recipe {inst}, {vname} {ext}; load(0, int)",
+                                       "native_outcome": f"providers consulted in the order {got!r} (expected {want}); the original retort afterwards: {orig!r} (expected {want_orig})"}})
+    return {"obligations": 0, "discharged": 0, "violations": viol, "solver_time": 0.0,
+            "bounded": [{"unit": "recipe assembly: extend-list ++ instance recipe ++ class recipes in MRO order, each provider consulted once",
+                         "bound": f"{n} retorts: 0-2 providers per layer (extend, instance, child class, parent class) x mixin class 0-1 x 4 "
+                                  "ways of deriving the retort (extend, replace before / after, extend twice)"}],
+            "samples": [{"assembled_retorts": n, "failed": len(viol)}],
+            "assumptions": ["recipe assembly (metaclass / MRO / _clone) is checked only on this bounded family"]}
+
+
 def extra_checks(tier, seed):
     from genprog.check import extra_for_property
-    return [extra_for_property("C09", tier, seed, group="conv"), router_equivalence(tier)]
+    return [extra_for_property("C09", tier, seed, group="conv"), router_equivalence(tier), recipe_assembly()]
